@@ -15,7 +15,9 @@ def run(c):
               "strings, value comments and bucket labels of raw tags) and converted by the REAL requestHandler.GetTagFilter over an in-memory "
               "string->id mapping, its result compared with the model and fed into the real builders; every where integer expression is "
               "evaluated (ClickHouse typing) on edge Int32 halves incl. low halves with bit 31 set and compared with the model's tree; "
-              "non-trivial = some filter string "
+              "LENGTHS are adversarial per case (76% short; mixed; all-long: every non-empty string > 128 bytes; boundary 127/128/129): "
+              "values, regexes and user filter strings of both polarities get lengths 127/128/129 around format.MaxStringLen, log-uniform "
+              "130..8K and >= 512; non-trivial = some filter string is longer than 129 bytes, or "
               "contains a quote or backslash, or a regex / empty value / raw tag / raw64 tag is present; distinct by op-sequence hash")
     c.assumptions += [
         "TRUSTED, NOT CHECKED AGAINST ClickHouse: the single-quoted literal lexer/decoder `lexLit`/`scan` is written from ClickHouse's "
@@ -72,7 +74,9 @@ META = {
              "closing quote (no user byte can end a literal). For every builder configuration and all filters the WHERE text and the "
              "COMPLETE text of series / tag-values / tag-value-IDs queries (query_wellformed) scan into exactly the user strings (in order, "
              "one literal each, decoded back to the original) and a skeleton that contains no quote, has balanced parentheses and does "
-             "not depend on the string contents (where_skeleton_independent, query_skeleton_independent). Every regular expression is "
+             "not depend on the string contents (where_skeleton_independent, query_skeleton_independent), with NO length hypothesis "
+             "(wellformed_any_length: lengthening every value/regex by any number of bytes keeps all of it and the same skeleton; a decide "
+             "witness shows the skip-values-longer-than-128 variant yields an unterminated literal). Every regular expression is "
              "written once, escaped, in positive and negative clauses of non-raw tags, decodes back to itself whatever follows "
              "(regex_literal_decodes, regex_decodes_in_tag) and is not written for raw tags. The condition tree written for a tag selects a "
              "row iff the row matches some requested value (positive) / none (negative), with the 0!=0 / 0=0 conventions, the empty value "
